@@ -41,6 +41,8 @@ pub fn run(id: &str, tier: &str) -> i32 {
             let fr = c11::FAULT_RUNS.load(std::sync::atomic::Ordering::Relaxed);
             rep.cov("evaluations", serde_json::json!(r + fr));
             rep.cov("fault_injected_executions", serde_json::json!(fr));
+            rep.cov("fault_injected_executions_of_calls_outside_the_alphabet", serde_json::json!(c11::EXTRA_FAULT_RUNS.load(std::sync::atomic::Ordering::Relaxed)));
+            rep.cov("calls_outside_the_alphabet_probed_at_every_state", serde_json::json!(["get_root_volume_label (BPB label blank on V32a: root-directory search)", "iterate_dir_lfn"]));
             rep.cov("fault_positions_by_call_kind_and_region", serde_json::json!(*c11::FAULT_KINDS.lock().unwrap()));
             rep.cov("distinct_nontrivial", serde_json::json!(t));
             rep.cov("rule", serde_json::json!("every transition of the history BFS is re-executed once per device call with that call failing; non-trivial = distinct (history, operation) transitions that issue at least one device call"));
